@@ -886,6 +886,12 @@ func startKeepalive(session keepaliveSession, interval time.Duration, failureThr
 					"error", err,
 					"consecutiveFailures", consecutiveFailures,
 					"failureThreshold", failureThreshold)
+				// The peer is presumed dead: calls that are still waiting for its
+				// response would otherwise keep the graceful Close below (and
+				// themselves) waiting for as long as their contexts live.
+				if s, ok := session.(interface{ getConn() *jsonrpc2.Connection }); ok {
+					s.getConn().Abandon(fmt.Errorf("%w: keepalive: peer is not responding to pings", jsonrpc2.ErrClientClosing))
+				}
 				_ = session.Close()
 				return
 			}
